@@ -50,6 +50,27 @@ def make_cases(rng, tier, budget):
                 c2["faults"] = [k]
                 c2["tag"] = {"fault": k, "call": [nm for kk, nm, _, _ph in log if kk == k][0], "in_scope": k in scoped or k in cw}
                 out.append(c2)
+        # three cached levels A > B > C in directories of their own, re-applied by the second build: every
+        # forward call of the whole history is faulted in turn, the caller catches (error paths of
+        # _apply_cached_suboperations)
+        for variant in range(1 if tier == "quick" else 3):
+            A, B, C = [["a", "o"], ["b", "o"], ["c", "o"]] if variant == 0 else ([["a", "o"], ["a", "b", "o"], ["a", "b", "c", "o"]] if variant == 1 else [["a", "o"], ["b", "m", "o"], ["c", "o"]])
+            funcs = {"fc": {"*": [["write", ["lit", "c"]], ["ret", ["lit", 3]]]},
+                     "fb": {"*": [["build_file", "y", C, "METADATA", "fc", [], {}], ["write", ["lit", "b"]], ["ret", ["lit", 2]]]},
+                     "fa": {"*": [["build_file", "x", B, "METADATA", "fb", [], {}], ["write", ["lit", "a"]], ["ret", ["lit", 1]]]}}
+            root = [["build_file", "z", A, "METADATA", "fa", [], {}], ["ask", "d1", "is_dir", B[:1]], ["ask", "l", "list_dir", []],
+                    ["ask", "w", "walk", [], True], ["ret", ["digest", ["z", "d1", "l"]]]]
+            c = {"cache": ["cache"], "name": "n", "funcs": funcs, "history": [["build", {}, root], ["build", {}, root], ["build", {}, root]]}
+            c0 = dict(c)
+            c0["faults"] = []
+            obs, st = seq.impl_run(c0, work)
+            log = st["mut_log"]
+            for k, name, _, phase in log:
+                if name in IN_SCOPE and phase == "forward":
+                    c2 = json.loads(json.dumps(c))
+                    c2["faults"] = [k]
+                    c2["tag"] = {"fault": k, "call": name, "in_scope": True}
+                    out.append(c2)
     finally:
         import shutil
         shutil.rmtree(work, ignore_errors=True)
@@ -75,6 +96,10 @@ def oracle_faults(case, obs, stats):
             for p, a in after.items():
                 if a[1] == "D" and p not in before and not any(f.startswith(p + "/") for f in files):
                     fails.append({"oracle": "no leaked directory after a caught internal error", "step": i, "path": p})
+            # a directory the previous build had made, empty now: the commit removes those
+            for p, a in after.items():
+                if a[1] == "D" and p in set(meta[i]["old_dirs"]) and not any(q.startswith(p + "/") for q in after):
+                    fails.append({"oracle": "no empty directory of the previous build is left after a commit", "step": i, "path": p})
             if not any(a[1] == "CACHE" for a in after.values()):
                 fails.append({"oracle": "cache file written after a successful build", "step": i})
     # the cache stays usable: no later build is refused
